@@ -574,6 +574,12 @@ def real_pools(ctx):
 
         with ThreadPoolExecutor(3) as ex:
             one("ThreadPoolExecutor", executor=ex)
+        # (options that are both given: the supplied executor is the one used,
+        # once)
+        with ThreadPoolExecutor(3) as ex:
+            one("ThreadPoolExecutor+num_workers", executor=ex, num_workers=2)
+        with ThreadPoolExecutor(2) as ex:
+            one("ThreadPoolExecutor+parallel", executor=ex, parallel=True)
         with ThreadPool(3) as ex:
             one("ThreadPool", executor=ex)
         with ProcessPoolExecutor(2) as ex:
